@@ -66,34 +66,37 @@ type c06OpInfo struct {
 }
 
 var c06Ops = map[string]c06OpInfo{
-	"lit":      {c06Fresh, nil, false, -1},
-	"alias":    {c06Share, []int{0}, false, -1},
-	"cons":     {c06Ext, []int{1}, false, -1},
-	"push":     {c06Ext, []int{1}, false, 1},
-	"liststar": {c06Ext, []int{2}, false, -1},
-	"append":   {c06Ext, []int{0, 1}, false, -1},
-	"cdr":      {c06Share, []int{0}, false, -1},
-	"rest":     {c06Share, []int{0}, false, -1},
-	"nthcdr":   {c06Share, []int{1}, false, -1},
-	"pop":      {c06Share, []int{0}, true, 0},
-	"last":     {c06Share, []int{1}, false, -1},
-	"member":   {c06Share, []int{1}, false, -1},
-	"butlast":  {c06Fresh, []int{1}, false, -1},
-	"subseq":   {c06Fresh, []int{2}, false, -1},
-	"copylist": {c06Fresh, []int{0}, false, -1},
-	"reverse":  {c06Fresh, []int{0}, false, -1},
-	"remove":   {c06Fresh, []int{1}, false, -1},
-	"mapcar":   {c06Fresh, []int{1}, false, -1},
-	"rplaca":   {c06Destr, []int{0}, false, -1},
-	"setcar":   {c06Destr, []int{0}, true, -1},
-	"setnth":   {c06Destr, []int{1}, true, -1},
-	"setelt":   {c06Destr, []int{1}, true, -1},
-	"rplacd":   {c06Destr, []int{0, 1}, false, -1},
-	"nconc":    {c06ExtD, []int{0, 1}, false, -1},
-	"add":      {c06ExtD, []int{0}, false, -1},
-	"nreverse": {c06Destr, []int{0}, false, -1},
-	"sort":     {c06Destr, []int{0}, false, -1},
-	"delete":   {c06Destr, []int{1}, false, -1},
+	"lit":       {c06Fresh, nil, false, -1},
+	"alias":     {c06Share, []int{0}, false, -1},
+	"cons":      {c06Ext, []int{1}, false, -1},
+	"push":      {c06Ext, []int{1}, false, 1},
+	"liststar":  {c06Ext, []int{2}, false, -1},
+	"append":    {c06Ext, []int{0, 1}, false, -1},
+	"cdr":       {c06Share, []int{0}, false, -1},
+	"rest":      {c06Share, []int{0}, false, -1},
+	"nthcdr":    {c06Share, []int{1}, false, -1},
+	"pop":       {c06Share, []int{0}, true, 0},
+	"last":      {c06Share, []int{1}, false, -1},
+	"member":    {c06Share, []int{1}, false, -1},
+	"butlast":   {c06Fresh, []int{1}, false, -1},
+	"subseq":    {c06Fresh, []int{2}, false, -1},
+	"copylist":  {c06Fresh, []int{0}, false, -1},
+	"reverse":   {c06Fresh, []int{0}, false, -1},
+	"remove":    {c06Fresh, []int{1}, false, -1},
+	"mapcar":    {c06Fresh, []int{1}, false, -1},
+	"rplaca":    {c06Destr, []int{0}, false, -1},
+	"setcar":    {c06Destr, []int{0}, true, -1},
+	"setnth":    {c06Destr, []int{1}, true, -1},
+	"setelt":    {c06Destr, []int{1}, true, -1},
+	"rplacd":    {c06Destr, []int{0, 1}, false, -1},
+	"nconc":     {c06ExtD, []int{0, 1}, false, -1},
+	"add":       {c06ExtD, []int{0}, false, -1},
+	"nreverse":  {c06Destr, []int{0}, false, -1},
+	"sort":      {c06Destr, []int{1}, false, -1}, // args: asc|desc[,key=f], x
+	"mapcar2":   {c06Fresh, []int{0, 1}, false, -1},
+	"liststar1": {c06Share, []int{0}, false, -1},
+	"liststar2": {c06Ext, []int{1}, false, -1},
+	"delete":    {c06Destr, []int{1}, false, -1},
 }
 
 func c06Extending(op string) bool {
@@ -108,19 +111,59 @@ func c06Destructive(op string) bool {
 
 func c06Vals(s string) string { return strings.ReplaceAll(s, ".", " ") }
 
-func c06PredLisp(fn, p, x string) string {
-	kind, v, _ := strings.Cut(p, ":")
+func c06KeyLisp(f string) string {
+	switch f {
+	case "inc":
+		return "'1+"
+	case "dbl":
+		return "(lambda (el) (* el 2))"
+	}
+	return "'-"
+}
+
+// c06SpecLisp renders remove/delete/member with their keyword arguments.
+// spec = pred[,key=f][,start=n][,end=n][,count=n][,fromend] | dups[,fromend]
+func c06SpecLisp(fn, spec, x string) string {
+	parts := strings.Split(spec, ",")
+	kind, v, _ := strings.Cut(parts[0], ":")
+	kw := ""
+	for _, o := range parts[1:] {
+		k, val, _ := strings.Cut(o, "=")
+		switch k {
+		case "fromend":
+			kw += " :from-end t"
+		case "key":
+			kw += " :key " + c06KeyLisp(val)
+		case "start":
+			kw += " :start " + val
+		case "end":
+			kw += " :end " + val
+		case "count":
+			kw += " :count " + val
+		}
+	}
 	switch kind {
 	case "eq":
-		return fmt.Sprintf("(%s %s %s)", fn, v, x)
+		return fmt.Sprintf("(%s %s %s%s)", fn, v, x, kw)
+	case "gt": // item < element
+		return fmt.Sprintf("(%s %s %s :test '<%s)", fn, v, x, kw)
 	case "even":
-		return fmt.Sprintf("(%s-if 'evenp %s)", fn, x)
+		return fmt.Sprintf("(%s-if 'evenp %s%s)", fn, x, kw)
 	case "odd":
-		return fmt.Sprintf("(%s-if 'oddp %s)", fn, x)
+		return fmt.Sprintf("(%s-if 'oddp %s%s)", fn, x, kw)
 	case "lt":
-		return fmt.Sprintf("(%s-if (lambda (el) (< el %s)) %s)", fn, v, x)
+		if fn == "member" {
+			return fmt.Sprintf("(%s %s %s :test '>%s)", fn, v, x, kw)
+		}
+		return fmt.Sprintf("(%s-if (lambda (el) (< el %s)) %s%s)", fn, v, x, kw)
+	case "dups":
+		return fmt.Sprintf("(%s-duplicates %s%s)", fn, x, kw)
+	default:
+		if _, err := strconv.Atoi(kind); err == nil { // plain item
+			return fmt.Sprintf("(%s %s %s%s)", fn, kind, x, kw)
+		}
 	}
-	return "(error \"bad pred\")"
+	return "(error \"bad spec\")"
 }
 
 // lisp renders the step as the form evaluated on the implementation.
@@ -163,7 +206,13 @@ func (st c06Step) lisp() string {
 			form = fmt.Sprintf("(last %s %s)", a[1], a[0])
 		}
 	case "member":
-		form = fmt.Sprintf("(member %s %s)", a[0], a[1])
+		form = c06SpecLisp("member", a[0], a[1])
+	case "mapcar2":
+		form = fmt.Sprintf("(mapcar '+ %s %s)", a[0], a[1])
+	case "liststar1":
+		form = fmt.Sprintf("(list* %s)", a[0])
+	case "liststar2":
+		form = fmt.Sprintf("(list* %s %s)", a[0], a[1])
 	case "butlast":
 		if a[0] == "1" && st.Quoted {
 			form = fmt.Sprintf("(butlast %s)", a[1])
@@ -181,7 +230,7 @@ func (st c06Step) lisp() string {
 	case "reverse":
 		form = fmt.Sprintf("(reverse %s)", a[0])
 	case "remove":
-		form = c06PredLisp("remove", a[0], a[1])
+		form = c06SpecLisp("remove", a[0], a[1])
 	case "mapcar":
 		switch a[0] {
 		case "inc":
@@ -208,9 +257,19 @@ func (st c06Step) lisp() string {
 	case "nreverse":
 		form = fmt.Sprintf("(nreverse %s)", a[0])
 	case "sort":
-		form = fmt.Sprintf("(sort %s '<)", a[0])
+		opts := strings.Split(a[0], ",")
+		pred := "'<"
+		if opts[0] == "desc" {
+			pred = "'>"
+		}
+		form = fmt.Sprintf("(sort %s %s", a[1], pred)
+		if len(opts) > 1 {
+			_, f, _ := strings.Cut(opts[1], "=")
+			form += " :key " + c06KeyLisp(f)
+		}
+		form += ")"
 	case "delete":
-		form = c06PredLisp("delete", a[0], a[1])
+		form = c06SpecLisp("delete", a[0], a[1])
 	default:
 		form = "(error \"unknown op\")"
 	}
@@ -647,9 +706,17 @@ func (g *c06Gen) val() string {
 
 // template: an operation with parameters fixed; variables $1 $2 and fresh values $v $w to fill
 type c06Tmpl struct {
-	op    string
-	args  []string
-	nvars int
+	op      string
+	args    []string
+	nvars   int
+	variant bool // keyword / arity variant: used as a creator everywhere, as an exposer only in S3
+}
+
+// c06V marks a template as a keyword variant.
+func c06V(op string, args ...string) c06Tmpl {
+	t := c06T(op, args...)
+	t.variant = true
+	return t
 }
 
 func c06T(op string, args ...string) c06Tmpl {
@@ -662,7 +729,7 @@ func c06T(op string, args ...string) c06Tmpl {
 			n = 2
 		}
 	}
-	return c06Tmpl{op, args, n}
+	return c06Tmpl{op: op, args: args, nvars: n}
 }
 
 // the full template table (elements of the pool lists are 1..5; written values are >= 10)
@@ -684,8 +751,23 @@ var c06Templates = []c06Tmpl{
 	c06T("rplacd", "$1", "$2"), c06T("rplacd", "$1", "nil"),
 	c06T("nconc", "$1", "$2"), c06T("nconc", "$1", "nil"), c06T("nconc", "nil", "$1"),
 	c06T("add", "$1", "$v"), c06T("add", "$1", "$v.$w"),
-	c06T("nreverse", "$1"), c06T("sort", "$1"),
+	c06T("nreverse", "$1"), c06T("sort", "asc", "$1"),
 	c06T("delete", "eq:9", "$1"), c06T("delete", "eq:3", "$1"), c06T("delete", "eq:2", "$1"), c06T("delete", "odd", "$1"),
+	// keyword and arity variants
+	c06V("remove", "eq:1,count=1", "$1"), c06V("remove", "eq:1,count=1,fromend", "$1"), c06V("remove", "eq:1,fromend", "$1"),
+	c06V("remove", "eq:3,fromend,count=2", "$1"), c06V("remove", "eq:9,fromend", "$1"), c06V("remove", "eq:9,count=1", "$1"),
+	c06V("remove", "eq:3,start=1", "$1"), c06V("remove", "eq:1,start=1,end=3", "$1"), c06V("remove", "eq:1,end=2", "$1"),
+	c06V("remove", "eq:2,key=inc", "$1"), c06V("remove", "eq:2,key=dbl,fromend", "$1"), c06V("remove", "gt:2", "$1"), c06V("remove", "gt:2,count=1,fromend", "$1"),
+	c06V("remove", "odd,count=2", "$1"), c06V("remove", "odd,count=1,fromend", "$1"), c06V("remove", "even,start=1,end=3", "$1"), c06V("remove", "odd,key=inc", "$1"),
+	c06V("remove", "dups", "$1"), c06V("remove", "dups,fromend", "$1"),
+	c06V("delete", "eq:1,count=1", "$1"), c06V("delete", "eq:1,count=1,fromend", "$1"), c06V("delete", "eq:1,fromend", "$1"), c06V("delete", "eq:9,fromend", "$1"),
+	c06V("delete", "eq:3,start=1", "$1"), c06V("delete", "gt:2", "$1"), c06V("delete", "odd,count=1", "$1"), c06V("delete", "even,key=inc,fromend", "$1"),
+	c06V("delete", "dups", "$1"), c06V("delete", "dups,fromend", "$1"),
+	c06V("member", "gt:2", "$1"), c06V("member", "lt:2", "$1"), c06V("member", "eq:4,key=inc", "$1"), c06V("member", "even", "$1"), c06V("member", "odd,key=inc", "$1"), c06V("member", "eq:9,key=dbl", "$1"),
+	c06V("sort", "desc", "$1"), c06V("sort", "asc,key=neg", "$1"), c06V("sort", "desc,key=inc", "$1"),
+	c06V("mapcar2", "$1", "$2"), c06V("mapcar2", "$1", "$1"),
+	c06V("liststar1", "$1"), c06V("liststar2", "$v", "$1"),
+	c06V("nthcdr", "1", "$1"), c06V("last", "3", "$1"), c06V("butlast", "3", "$1"), c06V("subseq", "1", "1", "$1"), c06V("subseq", "0", "1", "$1"),
 }
 
 func (t c06Tmpl) inst(g *c06Gen, target, v1, v2 string) c06Step {
@@ -720,21 +802,40 @@ func c06Lit(target, vals string, quoted bool) c06Step {
 	return c06Step{Target: target, Op: "lit", Args: args, Quoted: quoted}
 }
 
-// base flavours of the list `a` (contents 3 1 4 2 5 in every flavour; different slice geometry)
+// base flavours of a list (different slice geometry for the same contents)
 func c06Base(name string, flavour int) []c06Step {
+	return c06BaseOf(name, flavour, "3.1.4.2.5")
+}
+
+func c06Join(parts ...string) string {
+	var nz []string
+	for _, p := range parts {
+		if p != "" {
+			nz = append(nz, p)
+		}
+	}
+	return strings.Join(nz, ".")
+}
+
+// c06BaseOf builds the list with the given contents (elements 1..5) in one of the geometries.
+func c06BaseOf(name string, flavour int, vals string) []c06Step {
+	n := 0
+	if vals != "" {
+		n = strings.Count(vals, ".") + 1
+	}
 	switch flavour {
 	case 0: // exact capacity
-		return []c06Step{c06Lit(name, "3.1.4.2.5", false)}
+		return []c06Step{c06Lit(name, vals, false)}
 	case 1: // built by the reader (append growth: spare capacity)
-		return []c06Step{c06Lit(name, "3.1.4.2.5", true)}
+		return []c06Step{c06Lit(name, vals, true)}
 	case 2: // result of remove (built with append: spare capacity)
-		return []c06Step{c06Lit(name, "3.1.9.4.2.5", false), {Target: name, Op: "remove", Args: []string{"eq:9", name}}}
+		return []c06Step{c06Lit(name, c06Join("9", vals), false), {Target: name, Op: "remove", Args: []string{"eq:9", name}}}
 	case 3: // what pop leaves (re-slice with an offset)
-		return []c06Step{c06Lit(name, "7.3.1.4.2.5", true), {Target: "-", Op: "pop", Args: []string{name}}}
-	case 4: // result of subseq / butlast (a prefix of a longer list)
-		return []c06Step{c06Lit(name, "3.1.4.2.5.8.9", true), {Target: name, Op: "subseq", Args: []string{"0", "5", name}}}
+		return []c06Step{c06Lit(name, c06Join("7", vals), true), {Target: "-", Op: "pop", Args: []string{name}}}
+	case 4: // result of subseq (a copy of a prefix of a longer list)
+		return []c06Step{c06Lit(name, c06Join(vals, "8.9"), true), {Target: name, Op: "subseq", Args: []string{"0", strconv.Itoa(n), name}}}
 	default: // result of butlast
-		return []c06Step{c06Lit(name, "3.1.4.2.5.8", false), {Target: name, Op: "butlast", Args: []string{"1", name}}}
+		return []c06Step{c06Lit(name, c06Join(vals, "8"), false), {Target: name, Op: "butlast", Args: []string{"1", name}}}
 	}
 }
 
@@ -769,6 +870,9 @@ func c06SweepPairs() []c06Hist {
 				continue
 			}
 			for ei, ex := range c06Templates {
+				if ex.variant {
+					continue
+				}
 				for dir := 0; dir < 2; dir++ {
 					g := &c06Gen{}
 					h := c06Hist{Sweep: fmt.Sprintf("S2 f=%d c=%d e=%d d=%d", flavour, ci, ei, dir)}
@@ -782,6 +886,61 @@ func c06SweepPairs() []c06Hist {
 					}
 					h.Steps = append(h.Steps, ex.inst(g, "r", on, "d"))
 					out = append(out, h)
+				}
+			}
+		}
+	}
+	return out
+}
+
+// sweep S3: short operands. For lists of length 0..4 (with repeated elements) in two geometries the
+// creator is applied to the whole list, to its length-1 tail and to its cdr; then a destructive or
+// extending exposer is applied to the result or to the operand. Every operation and every keyword
+// variant is a creator here.
+func c06SweepShort() []c06Hist {
+	var out []c06Hist
+	contents := []string{"", "3", "3.1", "1.3.1", "1.2.1.3"}
+	exposers := []c06Tmpl{
+		c06T("rplaca", "$1", "$v"), c06T("setcar", "$1", "$v"), c06T("setnth", "0", "$1", "$v"), c06T("setelt", "0", "$1", "$v"),
+		c06T("rplacd", "$1", "$2"), c06T("nconc", "$1", "$2"), c06T("add", "$1", "$v"), c06T("nreverse", "$1"),
+		c06T("sort", "asc", "$1"), c06T("sort", "desc", "$1"), c06T("delete", "eq:1", "$1"), c06T("delete", "eq:3,fromend", "$1"), c06T("push", "$v", "$1"),
+	}
+	for li, vals := range contents {
+		for _, flavour := range []int{0, 1, 2} {
+			for operand := 0; operand < 3; operand++ {
+				if operand > 0 && li < 2 {
+					continue // tails of lists shorter than 2 are nil or the list itself
+				}
+				for ci, cr := range c06Templates {
+					if c06Ops[cr.op].atomRes {
+						continue
+					}
+					for ei, ex := range exposers {
+						for dir := 0; dir < 2; dir++ {
+							g := &c06Gen{}
+							h := c06Hist{Sweep: fmt.Sprintf("S3 l=%d f=%d o=%d c=%d e=%d d=%d", li, flavour, operand, ci, ei, dir)}
+							h.Steps = append(h.Steps, c06BaseOf("a", flavour, vals)...)
+							x := "a"
+							switch operand {
+							case 1:
+								// the physically shared length-1 tail (last copies, nthcdr re-slices)
+								h.Steps = append(h.Steps, c06Step{Target: "tl", Op: "nthcdr", Args: []string{strconv.Itoa(li - 1), "a"}})
+								x = "tl"
+							case 2:
+								h.Steps = append(h.Steps, c06Step{Target: "tl", Op: "cdr", Args: []string{"a"}})
+								x = "tl"
+							}
+							h.Steps = append(h.Steps, c06Lit("c", "6", false), c06Lit("d", "8", true))
+							h.Setup = len(h.Steps)
+							h.Steps = append(h.Steps, cr.inst(g, "b", x, "c"))
+							on := x
+							if dir == 1 {
+								on = "b"
+							}
+							h.Steps = append(h.Steps, ex.inst(g, "r", on, "d"))
+							out = append(out, h)
+						}
+					}
 				}
 			}
 		}
@@ -891,7 +1050,19 @@ func c06Random(g *c06Gen, avoidListed bool) c06Hist {
 			}
 		}
 	}
-	for _, st := range c06Base("a", r.Intn(c06Flavours)) {
+	// contents: length 0..6 over 1..5 (repeated elements likely); half of the time the standard list
+	randVals := func() string {
+		if r.Chance(50) {
+			return "3.1.4.2.5"
+		}
+		n := r.Intn(7)
+		parts := make([]string, n)
+		for i := range parts {
+			parts[i] = strconv.Itoa(1 + r.Intn(5))
+		}
+		return strings.Join(parts, ".")
+	}
+	for _, st := range c06BaseOf("a", r.Intn(c06Flavours), randVals()) {
 		add(st)
 	}
 	// aliasing patterns of the pool
@@ -905,9 +1076,15 @@ func c06Random(g *c06Gen, avoidListed bool) c06Hist {
 		add(c06Step{Target: "d", Op: "alias", Args: []string{"a"}})
 	}
 	if r.Chance(60) {
-		for _, st := range c06Base("f", r.Intn(c06Flavours)) {
+		for _, st := range c06BaseOf("f", r.Intn(c06Flavours), randVals()) {
 			add(st)
 		}
+	}
+	if r.Chance(40) {
+		add(c06Step{Target: "tl", Op: "last", Args: []string{"1", "a"}, Quoted: true}) // copy of the last cell
+	}
+	if r.Chance(40) {
+		add(c06Step{Target: "q", Op: "nthcdr", Args: []string{strconv.Itoa(r.Intn(6)), "a"}}) // shared tail of any length
 	}
 	if r.Chance(30) {
 		add(c06Step{Target: "m", Op: "member", Args: []string{"4", "a"}})
@@ -991,6 +1168,7 @@ func c06Exhaustive(alpha []c06Letter, depth int, flavours []int, avoidListed boo
 		prefix = append(prefix, c06Step{Target: "b", Op: "cdr", Args: []string{"a"}},
 			c06Step{Target: "d", Op: "alias", Args: []string{"a"}})
 		prefix = append(prefix, c06Base("f", (fl+2)%c06Flavours)...)
+		prefix = append(prefix, c06Step{Target: "k", Op: "nthcdr", Args: []string{"4", "a"}}) // length-1 tail
 		idx := make([]int, depth)
 		for {
 			g := &c06Gen{}
@@ -1333,8 +1511,11 @@ func runC06(c *lib.Ctx) {
 	report(s1, true, "sweep_values")
 	s2 := c06RunBatch(c, c06SweepPairs(), workers)
 	report(s2, true, "sweep_pairs")
+	s3 := c06RunBatch(c, c06SweepShort(), workers)
+	report(s3, true, "sweep_short")
 	c.Ev.Coverage["sweep_value_cases"] = len(s1)
 	c.Ev.Coverage["sweep_pair_cases"] = len(s2)
+	c.Ev.Coverage["sweep_short_operand_cases"] = len(s3)
 
 	// 2. composite histories: random (both tiers)
 	g := &c06Gen{rng: c.Rng}
@@ -1370,12 +1551,14 @@ func runC06(c *lib.Ctx) {
 		back := map[string]bool{"cdr": true, "remove": true, "add": true, "nconc": true, "sort": true, "cons": true, "delete": true, "nreverse": true}
 		wide := []string{"cons:$v,$1", "push:$v,$1", "append:$1,$2", "cdr:$1", "nthcdr:2,$1", "pop:$1", "last:2,$1", "member:4,$1",
 			"butlast:1,$1", "subseq:1,3,$1", "copylist:$1", "reverse:$1", "remove:eq:2,$1", "mapcar:inc,$1", "liststar:$v,$w,$1",
-			"rplaca:$1,$v", "setnth:1,$1,$v", "setelt:0,$1,$v", "rplacd:$1,$2", "nconc:$1,$2", "add:$1,$v", "nreverse:$1", "sort:$1", "delete:eq:2,$1"}
+			"rplaca:$1,$v", "setnth:1,$1,$v", "setelt:0,$1,$v", "rplacd:$1,$2", "nconc:$1,$2", "add:$1,$v", "nreverse:$1", "sort:asc,$1", "delete:eq:2,$1"}
 		narrow := []string{"cons:$v,$1", "append:$1,$2", "cdr:$1", "butlast:1,$1", "subseq:1,3,$1", "remove:eq:2,$1",
-			"setnth:1,$1,$v", "rplacd:$1,$2", "nconc:$1,$2", "add:$1,$v", "sort:$1", "pop:$1"}
+			"setnth:1,$1,$v", "rplacd:$1,$2", "nconc:$1,$2", "add:$1,$v", "sort:asc,$1", "pop:$1"}
 		exh := 0
 		emit := func(hs []c06Hist) { report(c06RunBatch(c, hs, workers), false, "exhaustive") }
-		a2 := c06Alphabet(wide, []string{"a", "b", "d", "f", "$last"}, back)
+		wide2 := append(append([]string{}, wide...), "remove:eq:1,count=1,fromend,$1", "remove:dups,$1", "delete:eq:1,fromend,$1", "member:gt:2,$1",
+			"sort:desc,$1", "mapcar2:$1,$2", "liststar2:$v,$1", "last:1,$1")
+		a2 := c06Alphabet(wide2, []string{"a", "b", "d", "f", "k", "$last"}, back)
 		exh += c06Exhaustive(a2, 2, []int{0, 1, 2, 3, 4, 5}, avoidListed, batch, emit)
 		a3 := c06Alphabet(wide, []string{"a", "b", "$last"}, map[string]bool{"add": true, "cdr": true})
 		exh += c06Exhaustive(a3, 3, []int{1, 2}, avoidListed, batch, emit)
